@@ -85,6 +85,133 @@ func (g *c10Gen) newAlias(def string) string {
 
 var c10Lits = []string{"abc", "Hello World", "", "aXbXc", "mIxEd 123 zZ", "a", "k1", "x-y", "UPPER", "@[`{~"}
 
+// wide scopes: texts longer than 3 bytes with 2-, 3- and 4-byte UTF-8 sequences (strlen, substr,
+// split, join count and cut BYTES; upper/lower stay on ASCII, the oracle's c10Upper is ASCII only),
+// vector elements, integers with ≥ 10 digits and beyond 2^53
+var c10WideLits = []string{"héllo wörld", "键值对 kv", "😅x😅", "naïve café", "the quick brown fox jumps over the lazy dog", "ab键", "Ünïcödé"}
+var c10VecNums = []string{"0", "1", "2", "-3", "1.5", "0.25", "10", "7", "100", "3.75", "-0.5", "12345", "6", "0.125"}
+var c10BigInts = []string{"9007199254740993", "-9007199254740993", "1234567890123456789", "-1234567890123456789",
+	"-9223372036854775808", "9223372036854775807", "1234567890", "-4294967297", "9007199254740992", "4611686018427387905"}
+
+// wideText: a text argument that is, one time in three, a long / multi-byte literal
+func (g *c10Gen) wideText() tArg {
+	if g.r.Chance(1, 3) {
+		l := pick(g.r, c10WideLits)
+		return tArg{text: quote(l), f: func(kvql.KVPair) string { return l }}
+	}
+	return g.text()
+}
+
+// vecLen: 4–9 elements (one or two complete groups of four and every remainder) or 33–40
+func (g *c10Gen) vecLen() int {
+	if g.r.Chance(1, 4) {
+		return 33 + g.r.Intn(8)
+	}
+	return 4 + g.r.Intn(6)
+}
+
+func randVec(r *Rand, n int) string {
+	p := make([]string, n)
+	for i := range p {
+		p[i] = pick(r, c10VecNums)
+	}
+	return strings.Join(p, ",")
+}
+
+// listN: a numeric list of exactly n elements: literal int / float lists (one element may be the
+// row-dependent strlen(key)) or split(value, ',') over a store whose values are n-element vectors (store 6)
+func (g *c10Gen) listN(n int) lArg {
+	switch g.r.Intn(4) {
+	case 0:
+		parts := func(kv kvql.KVPair) []string { return strings.Split(string(kv.Value), ",") }
+		return lArg{text: "split(value, ',')", kind: "split", store: 6,
+			elems: func(kv kvql.KVPair) []string {
+				var p []string
+				for _, s := range parts(kv) {
+					p = append(p, cText(s))
+				}
+				return p
+			},
+			nums: func(kv kvql.KVPair) []float64 {
+				var p []float64
+				for _, s := range parts(kv) {
+					p = append(p, atofOr0([]byte(s)))
+				}
+				return p
+			}}
+	case 1:
+		as := make([]iArg, n)
+		txt := make([]string, n)
+		for i := range as {
+			v := pick(g.r, []int64{0, 1, 2, 3, 7, 10, 100, 12345, 1234567890, 4294967296, 9223372036854775807})
+			as[i] = iArg{text: fmt.Sprint(v), f: func(kvql.KVPair) int64 { return v }}
+		}
+		if g.r.Chance(1, 3) {
+			as[g.r.Intn(n)] = iArg{text: "strlen(key)", f: func(kv kvql.KVPair) int64 { return int64(len(kv.Key)) }}
+		}
+		for i, a := range as {
+			txt[i] = a.text
+		}
+		name := pick(g.r, []string{"list", "int_list", "ilist"})
+		return lArg{text: name + "(" + strings.Join(txt, ", ") + ")", kind: name, store: -1,
+			elems: func(kv kvql.KVPair) []string {
+				p := make([]string, n)
+				for i, a := range as {
+					p[i] = cInt(a.f(kv))
+				}
+				return p
+			},
+			nums: func(kv kvql.KVPair) []float64 {
+				p := make([]float64, n)
+				for i, a := range as {
+					p[i] = float64(a.f(kv))
+				}
+				return p
+			}}
+	default:
+		vs := make([]float64, n)
+		txt := make([]string, n)
+		for i := range vs {
+			txt[i] = pick(g.r, []string{"0.5", "1.5", "2.0", "0.25", "10.0", "3.75", "100.125", "0.1", "7.0"})
+			vs[i], _ = strconv.ParseFloat(txt[i], 64)
+		}
+		name := pick(g.r, []string{"list", "float_list", "flist"})
+		return lArg{text: name + "(" + strings.Join(txt, ", ") + ")", kind: name, store: -1,
+			elems: func(kvql.KVPair) []string {
+				p := make([]string, n)
+				for i, v := range vs {
+					p[i] = cFloat(v)
+				}
+				return p
+			},
+			nums: func(kvql.KVPair) []float64 { return vs }}
+	}
+}
+
+// distWant: the formulas of README.md over the oracle's element values
+func distWant(fn string, a, b lArg) c10Want {
+	return func(kv kvql.KVPair) (string, bool) {
+		x, y := a.nums(kv), b.nums(kv)
+		if len(x) != len(y) {
+			return "", false // judged by the refuse cases
+		}
+		if fn == "l2_distance" {
+			sum := 0.0
+			for i := range x {
+				sum += (x[i] - y[i]) * (x[i] - y[i])
+			}
+			return cFloat(math.Sqrt(sum)), true
+		}
+		dot, na, nb := 0.0, 0.0, 0.0
+		for i := range x {
+			dot += x[i] * y[i]
+			na += x[i] * x[i]
+			nb += y[i] * y[i]
+		}
+		return cFloat(1 - dot/(math.Sqrt(na)*math.Sqrt(nb))), true
+	}
+}
+
 func (g *c10Gen) text() tArg {
 	switch g.r.Intn(6) {
 	case 0:
@@ -122,11 +249,16 @@ func (g *c10Gen) integer(small bool) iArg {
 	case 2:
 		return iArg{text: "strlen(key)", f: func(kv kvql.KVPair) int64 { return int64(len(kv.Key)) }}
 	default:
-		pool := []int64{0, 1, 2, 3, 7, 10, 100, 12345, 9223372036854775807}
+		pool := []int64{0, 1, 2, 3, 7, 10, 100, 12345, 9223372036854775807, 1234567890, 4294967296, 9007199254740993, 1234567890123456789}
 		if small {
-			pool = []int64{0, 1, 2, 3, 4, 5}
+			pool = []int64{0, 1, 2, 3, 4, 5, 7, 12, 40}
 		}
 		v := pick(g.r, pool)
+		if !small && g.r.Chance(1, 8) {
+			// a negative number is written 0 - n (there is no unary minus)
+			v = pick(g.r, []int64{5, 1234567890, 9007199254740993, 1234567890123456789, 9223372036854775807})
+			return iArg{text: fmt.Sprintf("(0 - %d)", v), f: func(kvql.KVPair) int64 { return -v }}
+		}
 		return iArg{text: fmt.Sprint(v), f: func(kvql.KVPair) int64 { return v }}
 	}
 }
@@ -326,8 +458,10 @@ type c10Case struct {
 	expr    string
 	store   int // chunk kind
 	want    c10Want
-	refuse  bool // every pair must be refused with an error (not a panic)
-	noPanic bool // only requirement: no panic
+	refuse  bool   // every pair must be refused with an error (not a panic)
+	noPanic bool   // only requirement: no panic
+	vecLen  int    // store 6: every value is a vector of vecLen numbers joined by ','
+	sep     string // store 5: every value is three parts joined by sep (default ",")
 }
 
 func runC10(e *Env, col *Collector, d *Driver, w int) error {
@@ -353,7 +487,7 @@ func c10One(e *Env, col *Collector, idx uint64) {
 		return
 	}
 	target := stmt.Fields[len(stmt.Fields)-1]
-	chunk := genChunk(r, c.store%5)
+	chunk := genChunk(r, max(c.store, 0)%5)
 	if len(chunk) == 0 {
 		chunk = []kvql.KVPair{kvql.NewKVP([]byte("k1"), []byte("1"))}
 	}
@@ -362,9 +496,33 @@ func c10One(e *Env, col *Collector, idx uint64) {
 		for i := range chunk {
 			chunk[i].Value = []byte(pick(r, c10Docs))
 		}
-	case 5: // values with exactly two commas
+	case 5: // values with exactly two separators
 		for i := range chunk {
-			chunk[i].Value = []byte(pick(r, []string{"a,b,c", "1,2,3", ",,", "x,,y", "Hello, World,!", "ab,ab,ab"}))
+			if c.sep == "" || (c.sep == "," && r.Bool()) {
+				chunk[i].Value = []byte(pick(r, []string{"a,b,c", "1,2,3", ",,", "x,,y", "Hello, World,!", "ab,ab,ab"}))
+				continue
+			}
+			ps := make([]string, 3)
+			for j := range ps {
+				ps[j] = pick(r, []string{"a", "", "héllo", "x y", "键", "1", "the quick brown fox", "😅", "Hello World"})
+			}
+			chunk[i].Value = []byte(strings.Join(ps, c.sep))
+		}
+	case 6: // vectors of vecLen numbers
+		for i := range chunk {
+			chunk[i].Value = []byte(randVec(r, c.vecLen))
+		}
+	case 7: // long and multi-byte texts
+		for i := range chunk {
+			if r.Chance(1, 4) {
+				chunk[i].Value = []byte(pick(r, evalTexts))
+			} else {
+				chunk[i].Value = []byte(pick(r, c10WideLits))
+			}
+		}
+	case 8: // integers with ≥ 10 digits, negative with 19 digits, beyond 2^53
+		for i := range chunk {
+			chunk[i].Value = []byte(pick(r, c10BigInts))
 		}
 	}
 	col.Nontrivial(c.expr + pairsShow(chunk))
@@ -456,7 +614,31 @@ func c10Make(g *c10Gen) c10Case {
 	always := func(f func(kv kvql.KVPair) string) c10Want {
 		return func(kv kvql.KVPair) (string, bool) { return f(kv), true }
 	}
-	switch r.Intn(17) {
+	switch r.Intn(20) {
+	case 17, 18:
+		// distances over vectors of 4–9 and 33–40 elements (equal lengths)
+		n := g.vecLen()
+		a, b := g.listN(n), g.listN(n)
+		st := 0
+		if a.store == 6 || b.store == 6 {
+			st = 6
+		}
+		fn := pick(r, []string{"l2_distance", "cosine_distance"})
+		return c10Case{name: fn, expr: fn + "(" + a.text + ", " + b.text + ")", store: st, vecLen: n, want: distWant(fn, a, b)}
+	case 19:
+		// len, [first / middle / last] and the list itself for lists of 4–9 and 33–40 elements
+		n := g.vecLen()
+		l := g.listN(n)
+		st := max(l.store, 0)
+		switch r.Intn(3) {
+		case 0:
+			return c10Case{name: "len:" + l.kind, expr: "len(" + l.text + ")", store: st, vecLen: n, want: always(func(kv kvql.KVPair) string { return cInt(int64(len(l.elems(kv)))) })}
+		case 1:
+			i := pick(r, []int{0, n / 2, n - 1, n - 2})
+			return c10Case{name: "index:" + l.kind, expr: fmt.Sprintf("%s[%d]", l.text, i), store: st, vecLen: n, want: always(func(kv kvql.KVPair) string { return l.elems(kv)[i] })}
+		default:
+			return c10Case{name: "build:" + l.kind, expr: l.text, store: st, vecLen: n, want: always(func(kv kvql.KVPair) string { return cList(l.elems(kv)) })}
+		}
 	case 0:
 		t := g.text()
 		return c10Case{name: "upper", expr: "upper(" + t.text + ")", store: 2, want: always(func(kv kvql.KVPair) string { return cText(c10Upper(t.f(kv))) })}
@@ -464,18 +646,19 @@ func c10Make(g *c10Gen) c10Case {
 		t := g.text()
 		return c10Case{name: "lower", expr: "lower(" + t.text + ")", store: 2, want: always(func(kv kvql.KVPair) string { return cText(c10Lower(t.f(kv))) })}
 	case 2:
-		t := g.text()
-		return c10Case{name: "strlen", expr: "strlen(" + t.text + ")", store: 2, want: always(func(kv kvql.KVPair) string { return cInt(int64(len(t.f(kv)))) })}
+		t := g.wideText()
+		return c10Case{name: "strlen", expr: "strlen(" + t.text + ")", store: pick(r, []int{2, 7}), want: always(func(kv kvql.KVPair) string { return cInt(int64(len(t.f(kv)))) })}
 	case 3:
 		a := g.integer(false)
+		st := pick(r, []int{0, 0, 8})
 		if r.Bool() {
-			return c10Case{name: "str", expr: "str(" + a.text + ")", store: 0, want: always(func(kv kvql.KVPair) string { return cText(strconv.FormatInt(a.f(kv), 10)) })}
+			return c10Case{name: "str", expr: "str(" + a.text + ")", store: st, want: always(func(kv kvql.KVPair) string { return cText(strconv.FormatInt(a.f(kv), 10)) })}
 		}
-		return c10Case{name: "int-str", expr: "int(str(" + a.text + "))", store: 0, want: always(func(kv kvql.KVPair) string { return cInt(a.f(kv)) })}
+		return c10Case{name: "int-str", expr: "int(str(" + a.text + "))", store: st, want: always(func(kv kvql.KVPair) string { return cInt(a.f(kv)) })}
 	case 4:
 		// int / float read decimal text back
 		if r.Bool() {
-			return c10Case{name: "int-text", expr: "int(value)", store: 0, want: func(kv kvql.KVPair) (string, bool) {
+			return c10Case{name: "int-text", expr: "int(value)", store: pick(r, []int{0, 0, 8}), want: func(kv kvql.KVPair) (string, bool) {
 				n, err := strconv.ParseInt(string(kv.Value), 10, 64)
 				return cInt(n), err == nil
 			}}
@@ -501,15 +684,19 @@ func c10Make(g *c10Gen) c10Case {
 		return c10Case{name: "is_float", expr: "is_float(" + t.text + ")", store: st, want: always(func(kv kvql.KVPair) string { return cBool(isDecFloat.MatchString(t.f(kv))) })}
 	case 6:
 		// split(join(sep, parts…), sep) = parts, separator not occurring in the parts
-		sep := pick(r, []string{"|", ";", "::", "#"})
+		// (2- and 3-byte separators included: none occurs in, or overlaps the end of, a text of the pools)
+		sep := pick(r, []string{"|", ";", "::", "#", "<>", "—", "#|#"})
 		n := 1 + r.Intn(3)
+		if r.Chance(1, 6) {
+			n = 4 + r.Intn(6)
+		}
 		ps := make([]tArg, n)
 		txt := make([]string, n)
 		for i := range ps {
-			ps[i] = g.text()
+			ps[i] = g.wideText()
 			txt[i] = ps[i].text
 		}
-		return c10Case{name: "split-join", expr: "split(join(" + quote(sep) + ", " + strings.Join(txt, ", ") + "), " + quote(sep) + ")", store: 2,
+		return c10Case{name: "split-join", expr: "split(join(" + quote(sep) + ", " + strings.Join(txt, ", ") + "), " + quote(sep) + ")", store: pick(r, []int{2, 7}),
 			want: always(func(kv kvql.KVPair) string {
 				p := make([]string, n)
 				for i, a := range ps {
@@ -520,7 +707,9 @@ func c10Make(g *c10Gen) c10Case {
 	case 7:
 		// join(sep, split(s, sep)[0], …, [k-1]) = s   (every value of the store has exactly two commas)
 		s := "value"
-		return c10Case{name: "join-split", expr: "join(',', split(" + s + ", ',')[0], split(" + s + ", ',')[1], split(" + s + ", ',')[2])", store: 5,
+		sep := pick(r, []string{",", ",", "::", "—", "<=>"})
+		qs := quote(sep)
+		return c10Case{name: "join-split", expr: "join(" + qs + ", split(" + s + ", " + qs + ")[0], split(" + s + ", " + qs + ")[1], split(" + s + ", " + qs + ")[2])", store: 5, sep: sep,
 			want: always(func(kv kvql.KVPair) string { return cText(string(kv.Value)) })}
 	case 8:
 		l := g.list(0)
@@ -559,26 +748,7 @@ func c10Make(g *c10Gen) c10Case {
 			}
 		}
 		fn := pick(r, []string{"l2_distance", "cosine_distance"})
-		return c10Case{name: fn, expr: fn + "(" + a.text + ", " + b.text + ")", store: a.store, want: func(kv kvql.KVPair) (string, bool) {
-			x, y := a.nums(kv), b.nums(kv)
-			if len(x) != len(y) {
-				return "", false // judged by the refuse cases
-			}
-			if fn == "l2_distance" {
-				sum := 0.0
-				for i := range x {
-					sum += (x[i] - y[i]) * (x[i] - y[i])
-				}
-				return cFloat(math.Sqrt(sum)), true
-			}
-			dot, na, nb := 0.0, 0.0, 0.0
-			for i := range x {
-				dot += x[i] * y[i]
-				na += x[i] * x[i]
-				nb += y[i] * y[i]
-			}
-			return cFloat(1 - dot/(math.Sqrt(na)*math.Sqrt(nb))), true
-		}}
+		return c10Case{name: fn, expr: fn + "(" + a.text + ", " + b.text + ")", store: a.store, want: distWant(fn, a, b)}
 	case 12:
 		// different lengths must be refused
 		fn := pick(r, []string{"l2_distance", "cosine_distance"})
@@ -612,9 +782,9 @@ func c10Make(g *c10Gen) c10Case {
 		}}
 	default:
 		// substr(v, s, e) = bytes [s, min(e, len v)), empty when s is not below that bound
-		t := g.text()
+		t := g.wideText()
 		s, en := g.integer(true), g.integer(true)
-		st := 2
+		st := pick(r, []int{2, 7})
 		if s.rowInt || en.rowInt {
 			st = 0 // int(value) needs decimal integers in the store (negative ones included)
 		}
